@@ -1,6 +1,7 @@
 """The helpers that gen/c2lean.py translates (stripbrackets, addbrackets, toLowerCase, hashstring, ltrim, rtrim,
 trim, check_delim, replace_str; over the entry array of an econf_file: has_group, first_entry, first_definition, find_key,
-getFromGroupList): the real C function (harness/leaf.c, ASan+UBSan, arguments in tight heap blocks), the
+getFromGroupList; the copying half of the merge: setGroupList, cpy_file_entry and - as "merge3" - insert_nogroup,
+merge_existing_groups, add_new_groups in the order econf_mergeFiles calls them): the real C function (harness/leaf.c, ASan+UBSan, arguments in tight heap blocks), the
 translated term run by the MiniC interpreter (econf_model --leaf) and an independent specification in Python are
 evaluated on the same inputs.  This validates the trusted part of the translator route (the MiniC semantics and the
 translation itself) and supplies the failing input when a theorem of lean/Econf/Props/Leaf.lean no longer checks."""
@@ -213,10 +214,140 @@ def kf_cases(fn, tier, rng):
     return out
 
 
+# ---------- the copying half of the merge (setGroupList, cpy_file_entry, the three steps of econf_mergeFiles)
+MERGE_FNS = ("setGroupList", "cpy_file_entry", "merge3")
+
+
+def ents3_token(ents):
+    return "e" + ",".join(hx(g) + ":" + hx(k) + ":" + ("-" if v is None else hx(v)) for g, k, v in ents)
+
+
+def opt_tok(v):
+    return "-" if v is None else hx(v)
+
+
+def merge_spec(uf, ef):
+    """entries (group, key, value, line) of the result of the three steps, the lengths after each step, the group list"""
+    ufl = [(g, k, v, 10 + i) for i, (g, k, v) in enumerate(uf)]
+    efl = [(g, k, v, 10 + i) for i, (g, k, v) in enumerate(ef)]
+
+    def first_defs(l):
+        seen, out = set(), []
+        for e in l:
+            if (e[0], e[1]) not in seen:
+                out.append(e)
+            seen.add((e[0], e[1]))
+        return out
+
+    ef1 = first_defs(efl)
+    res = []
+    if not any(g == NONE for g, _, _, _ in ufl):
+        res += [e for e in ef1 if e[0] == NONE]
+    l1 = len(res)
+    for i, (g, k, v, ln) in enumerate(ufl):
+        ov = next((e for e in efl if e[0] == g and e[1] == k), None)
+        res.append((g, k, v if ov is None else (ov[2] if ov[2] is not None else b""), ln))
+        if not any(e[0] == g for e in ufl[i + 1:]):
+            res += [e for e in ef1 if e[0] == g and not any(u[0] == g and u[1] == e[1] for u in ufl)]
+    l2 = len(res)
+    res += [e for e in ef1 if e[0] != NONE and not any(u[0] == e[0] for u in ufl)]
+    groups = []
+    for e in res:
+        if e[0] not in groups:
+            groups.append(e[0])
+    return res, (l1, l2, len(res)), groups
+
+
+def merge_expected(fn, t):
+    if fn == "setGroupList":
+        groups, name = t
+        out = list(groups) if name in groups else list(groups) + [name]
+        return "%d g%s" % (out.index(name), ",".join(hx(g) for g in out))
+    if fn == "cpy_file_entry":
+        groups, ents, i = t
+        g, k, v = ents[i]
+        out = list(groups) if g in groups else list(groups) + [g]
+        return "%d %s %s - - %d 0 g%s" % (out.index(g), hx(k), opt_tok(v), 10 + i, ",".join(hx(x) for x in out))
+    uf, ef = t
+    res, (l1, l2, l3), groups = merge_spec(uf, ef)
+    return "%d %d %d e%s g%s" % (l1, l2, l3, ",".join("%d:%s:%s:%d:0" % (groups.index(g), hx(k), opt_tok(v), ln) for g, k, v, ln in res),
+                                  ",".join(hx(x) for x in groups))
+
+
+def merge_line(fn, t):
+    if fn == "setGroupList":
+        return "%s g%s %s" % (fn, ",".join(hx(g) for g in t[0]), hx(t[1]))
+    if fn == "cpy_file_entry":
+        return "%s g%s %s n%d" % (fn, ",".join(hx(g) for g in t[0]), ents3_token(t[1]), t[2])
+    return "%s %s %s" % (fn, ents3_token(t[0]), ents3_token(t[1]))
+
+
+def merge_parse(ln):
+    t = ln.split()
+    fn = t[0]
+
+    def groups(tok):
+        return [bytes.fromhex(x[1:]) for x in tok[1:].split(",") if x]
+
+    def ents(tok):
+        out = []
+        for x in [y for y in tok[1:].split(",") if y]:
+            f = x.split(":")
+            out.append((bytes.fromhex(f[0][1:]), bytes.fromhex(f[1][1:]), None if f[2] == "-" else bytes.fromhex(f[2][1:])))
+        return out
+    if fn == "setGroupList":
+        return fn, (groups(t[1]), bytes.fromhex(t[2][1:]))
+    if fn == "cpy_file_entry":
+        return fn, (groups(t[1]), ents(t[2]), int(t[3][1:]))
+    return fn, (ents(t[1]), ents(t[2]))
+
+
+def merge_cases(fn, tier, rng):
+    out = []
+    G = [NONE, b"A", b"B", b"AB"]
+    K = [b"x", b"y", b"xy"]
+    V = [b"1", b"two words", None, b""]
+
+    def add(t):
+        out.append((merge_line(fn, t), fn + " " + merge_expected(fn, t)))
+    if fn == "setGroupList":
+        for n in range(0, 4):
+            for gs in itertools.permutations(G, n):
+                for name in G:
+                    add((list(gs), name))
+        for _ in range(200 if tier == "quick" else 5000):
+            gs = rng.sample([NONE, b"A", b"B", b"AB", b"a", b"[A]", b"C", b"D", b"E"], rng.randint(0, 9))
+            add((gs, rng.choice(G + [b"a", b"zz"])))
+        return out
+    if fn == "cpy_file_entry":
+        for _ in range(400 if tier == "quick" else 10000):
+            gs = rng.sample(G, rng.randint(0, 4))
+            ents = [(rng.choice(G), rng.choice(K), rng.choice(V)) for _ in range(rng.randint(1, 4))]
+            add((gs, ents, rng.randrange(len(ents))))
+        return out
+    small = [(g, k, v) for g in G[:3] for k in K[:2] for v in (b"1", None)]
+    for nu in range(0, 3):
+        for ne in range(0, 3):
+            pool = list(itertools.product(small, repeat=nu))
+            pool2 = list(itertools.product(small, repeat=ne))
+            for uf in (pool if len(pool) <= 40 else rng.sample(pool, 40)):
+                for ef in (pool2 if len(pool2) <= 40 else rng.sample(pool2, 12 if tier == "quick" else 40)):
+                    add((list(uf), list(ef)))
+    for _ in range(600 if tier == "quick" else 20000):
+        # sections that are opened again, keys defined twice, group-less keys anywhere
+        uf = [(rng.choice(G), rng.choice(K), rng.choice(V)) for _ in range(rng.choice([0, 1, 2, 3, 5, 8, 13]))]
+        ef = [(rng.choice(G), rng.choice(K), rng.choice(V)) for _ in range(rng.choice([0, 1, 2, 3, 5, 8, 13]))]
+        add((uf, ef))
+    return out
+
+
 def expected(ln):
     """expected output of an input line (replay)"""
     t = ln.split()
     fn = t[0]
+    if fn in MERGE_FNS:
+        f2, tt = merge_parse(ln)
+        return fn + " " + merge_expected(f2, tt)
     if fn in KF_FNS:
         items = [x for x in t[1][1:].split(",") if x] if len(t[1]) > 1 else []
         if fn == "getFromGroupList":
@@ -242,7 +373,9 @@ def run_lines(harness, lines):
 
 def run(res, harness, tier, rng, fns):
     for fn in fns:
-        if fn in KF_FNS:
+        if fn in MERGE_FNS:
+            cases = merge_cases(fn, tier, rng)
+        elif fn in KF_FNS:
             cases = kf_cases(fn, tier, rng)
         else:
             cases = [("%s %s" % (fn, " ".join(hx(a) for a in t)), None) for t in inputs(fn, tier, rng)]
